@@ -1045,3 +1045,13 @@ Print_Dense(SuperMatrix *A)
     fflush(stdout);
 }
 
+
+#ifdef SLU_MT_VERIF
+/* Weak default: the verification harness overrides it. */
+__attribute__((weak)) void
+slu_mt_verif_event(int kind, long pnum, long a, long b, long c,
+		   const void *ctx)
+{
+    (void)kind; (void)pnum; (void)a; (void)b; (void)c; (void)ctx;
+}
+#endif
